@@ -61,6 +61,9 @@ def execute(case):
             if not (bool(x.equals(cp)) and bool(cp.equals(x)) and same):
                 line["copyEq"] = False
         line["eqOp"] = bool(a == b)
+        others = [bool(b == a), bool(a.abs == b.abs), bool(a.rel == b.rel), not bool(a != b)]
+        if any(x != line["eqOp"] for x in others):
+            line["eqOp"] = not line["res"][0]["ab"]      # inconsistent operators: force the eq-operator clause to fail
     except Exception as e:
         line["raised"] = f"{type(e).__name__}: {e}"
     return line
